@@ -567,6 +567,11 @@ class Run:
                     self.v("C07", "loan_left_by_rejected_call",
                            f"{name}({_fmt(args)}) raised {ex} and left loan {lo}",
                            mechanism=self._classify_c07(name, ex, before, after))
+                    if lo.is_open:
+                        self.v("C11", "loan_of_rejected_request_left_open",
+                               f"{name}({_fmt(args)}) was rejected ({type(ex).__name__}: {ex}) but the loan it created "
+                               f"({lo.borrowed_amount} {lo.borrowed_symbol}) stays open",
+                               mechanism=self._classify_c07(name, ex, before, after))
         if name == "create_loan" and self.lend is None:
             self.stats["noloans_rejections"] += 1
 
